@@ -31,6 +31,8 @@ REPL = [
  ("`/repo` carries only `fix:` commits (F01-F37).", "`/repo` carries only `fix:` commits (F01-F55)."),
  ("inputs that fail on the ORIGINAL tree (F01…F55), referenced from known-findings.txt", "inputs that fail on the tree BEFORE the repair named (F01…F56), referenced from known-findings.txt"),
  ("`/repo` carries only `fix:` commits (F01-F55).", "`/repo` carries only `fix:` commits (F01-F56)."),
+ ("`/repo` carries only `fix:` commits (F01-F56).", "`/repo` carries only `fix:` commits (F01-F58)."),
+ ("tree BEFORE the repair named (F01…F56)", "tree BEFORE the repair named (F01…F58)"),
  ("K01 = `compute_distance` (f64, out of\n  Verus' reach).", "K01 = `compute_distance` (f64, out of\n  Verus' reach), K02 = `WrapConfig::config_max_line_length` and K03 = `AmbiguousDiffMinusCounter::count_line` (also\n  under Verus contracts; Kani adds the counterexample that Verus cannot give)."),
 ]
 for x, y in REPL:
